@@ -95,11 +95,10 @@ Section CMP.
              lookup (r_out rl) (env c) = Some (TPointer TTensor, Some (VTensor tout));
     rc_ins : forall T t ov, In T (r_ins rl) -> lookup T (env a) = Some (t, ov) ->
                exists id, ov = Some (VTensor id) /\ id <> tout;
-    rc_tn : forall t, t <> tout ->
-              PM.find t (tensors a) = PM.find t (tensors c) /\
-              forall ts, PM.find t (tensors a) = Some ts ->
-                inptr (heap a) (t_vals ts) /\
-                forall p q, In (p, q) (t_idx ts) -> inptr (heap a) p /\ inptr (heap a) q;
+    rc_tn : forall t, t <> tout -> forall ts, PM.find t (tensors a) = Some ts ->
+              PM.find t (tensors c) = Some ts /\
+              inptr (heap a) (t_vals ts) /\
+              forall p q, In (p, q) (t_idx ts) -> inptr (heap a) p /\ inptr (heap a) q;
     rc_tout : exists tsa tsc,
                 PM.find tout (tensors a) = Some tsa /\ PM.find tout (tensors c) = Some tsc /\
                 t_dims tsa = t_dims tsc /\ List.length (t_idx tsa) = List.length (t_idx tsc) /\
@@ -205,7 +204,7 @@ Section CMP.
     intros [T E Ip Ih Ro Ri Tn To Bv Vv Cu] He Ht T1 X1 X2 X3 X4.
     constructor; rewrite ?He, ?Ht; auto.
     - intros x t v I L. eapply inptr_mono; eauto.
-    - intros t Nt. destruct (Tn t Nt) as [Q1 Q2]. split; auto. intros ts F. destruct (Q2 ts F) as [Q3 Q4].
+    - intros t Nt ts F. destruct (Tn t Nt ts F) as (Q1 & Q3 & Q4). split; auto.
       split; [eapply inptr_mono; eauto|]. intros p q I. destruct (Q4 p q I). split; eapply inptr_mono; eauto.
     - destruct To as (tsa & tsc & Q1 & Q2 & Q3 & Q4 & Q5 & Q6 & Q7). exists tsa, tsc. repeat split; auto.
       eapply vrel_mono; [|eauto]. exact X3.
@@ -249,7 +248,8 @@ Section CMP.
     destruct (Pos.eq_dec id tout) as [->|N].
     - destruct (rc_tout _ _ _ _ R) as (tsa & tsc & F1 & F2 & D & _). rewrite F1 in H. rewrite F2.
       cbn [bind] in *. now rewrite <- D.
-    - destruct (rc_tn _ _ _ _ R id N) as [Q _]. now rewrite <- Q.
+    - destruct (PM.find id (tensors a)) as [ts|] eqn:F; [|discriminate H].
+      destruct (rc_tn _ _ _ _ R id N ts F) as (Q & _). now rewrite Q.
   Qed.
 
   Lemma eval_C0 ph cur a c e : RC ph cur a c -> sexpC rl U false e = true ->
@@ -605,13 +605,13 @@ Section CMP.
     destruct (proj1 (idx_eval_iff a T k j v) (ex_intro _ t1 E))
       as (ty & id & k' & j' & ts & p & q & L & Ty & Ck & Cj & F & N & P & J).
     destruct (ins_id _ _ _ _ _ _ _ R MT L) as [Nid Lc].
-    destruct (rc_tn _ _ _ _ R id Nid) as [Qt Qi]. destruct (Qi ts F) as [_ Qi2].
+    destruct (rc_tn _ _ _ _ R id Nid ts F) as (Qt & _ & Qi2).
     pose proof (nthZ_opt_In _ _ _ N) as In. destruct (Qi2 _ _ In) as [Ip Iq].
     destruct (proj2 (ty_tn _ _ (rc_ty _ _ _ _ R) id ts F) _ _ In) as [Tp Tq].
     apply andb_prop in P. destruct P as [Pp Pq].
     split.
     { apply (proj2 (idx_eval_iff c T k j v)). exists ty, id, k', j', ts, p, q.
-      rewrite <- Qt. repeat split; auto. now rewrite Pp, Pq. }
+      repeat split; auto. now rewrite Pp, Pq. }
     destruct J as [[-> ->]|[-> ->]]; repeat split; auto; intros Q; rewrite (H_disj _ I1) in Q; discriminate.
   Qed.
 
@@ -626,10 +626,10 @@ Section CMP.
     apply (keep_decl_same ph cur a c); auto. intros v t1 E.
     destruct (proj1 (vals_eval_iff a T v) (ex_intro _ t1 E)) as (ty & id & ts & L & Ty & F & P & ->).
     destruct (ins_id _ _ _ _ _ _ _ R MT L) as [Nid Lc].
-    destruct (rc_tn _ _ _ _ R id Nid) as [Qt Qi]. destruct (Qi ts F) as [Qv _].
+    destruct (rc_tn _ _ _ _ R id Nid ts F) as (Qt & Qv & _).
     pose proof (proj1 (ty_tn _ _ (rc_ty _ _ _ _ R) id ts F)) as Tv.
     split.
-    { apply (proj2 (vals_eval_iff c T (t_vals ts))). exists ty, id, ts. rewrite <- Qt. auto. }
+    { apply (proj2 (vals_eval_iff c T (t_vals ts))). exists ty, id, ts. auto. }
     repeat split; auto. intros Q. destruct (mem x (r_ip rl)) eqn:Q2; try discriminate.
     rewrite (H_disj _ Q2) in I1. discriminate.
   Qed.
@@ -791,7 +791,7 @@ Section CMP.
       + rewrite PM.gss in F. inv F. discriminate.
       + rewrite PM.gso in F by exact N. pose proof (Ih _ _ F In) as Fb. rewrite PM.gso; auto.
         intros ->. rewrite Fc in Fb. inv Fb. congruence.
-    - intros t Nt. destruct (Tn t Nt) as [Q1 Q2]. split; auto. intros ts F. destruct (Q2 ts F) as [Q3 Q4].
+    - intros t Nt ts F. destruct (Tn t Nt ts F) as (Q1 & Q3 & Q4). split; auto.
       split; [eapply inptr_mono; eauto|]. intros p q I. destruct (Q4 p q I). split; eapply inptr_mono; eauto.
     - destruct To as (tsa & tsc & Q1 & Q2 & Q3 & Q4 & Q5 & Q6 & Q7). exists tsa, tsc. repeat split; auto.
       apply (vrel_mono true a (with_heap a (PM.add cur be' (heap a)))); [exact X3|exact Q7].
@@ -1060,7 +1060,7 @@ Section CMP.
       now rewrite PM.gso in F.
     - rewrite lookup_set_var, Npo. exact Ro.
     - intros T0 t0 ov0 I L0. rewrite lookup_set_var, (Npi _ I) in L0. eauto.
-    - intros t0 Nt. destruct (Tn t0 Nt) as [Q1 Q2]. split; auto. intros ts F. destruct (Q2 ts F) as [Q3 Q4].
+    - intros t0 Nt ts F. destruct (Tn t0 Nt ts F) as (Q1 & Q3 & Q4). split; auto.
       split; [eapply inptr_mono; eauto|]. intros p q I. destruct (Q4 p q I). split; eapply inptr_mono; eauto.
     - destruct To as (tsa & tsc & Q1 & Q2 & Q3 & Q4 & Q5 & Q6 & Q7). exists tsa, tsc. repeat split; auto.
       unfold vrel in *. destruct Q7 as [->|(b & o & -> & Q7)]; auto.
@@ -1118,7 +1118,7 @@ Section CMP.
         inv A. eexists. split; [reflexivity|]. simpl. repeat split; auto. unfold vrel. right. exists cur, 0. auto. }
     destruct K as (tsa' & -> & K1 & K2 & K3).
     destruct R as [T0 E Ip Ih Ro Ri Tn To Bv Vv Cu]. constructor; simpl; auto.
-    - intros t Nt. rewrite PM.gso by exact Nt. auto.
+    - intros t Nt ts. rewrite PM.gso by exact Nt. auto.
     - exists tsa', tsc. rewrite PM.gss. repeat split; auto; try congruence.
     - intros P. destruct (Cu P) as [Cr Cb]. constructor; auto.
   Qed.
@@ -1462,11 +1462,10 @@ Section CMP_CALL.
   Definition PreC (a c : state) : Prop :=
     TY rl (with_env a []) /\
     (forall b blk, PM.find b (heap a) = Some blk -> b_input blk = true -> PM.find b (heap c) = Some blk) /\
-    (forall t, t <> tout ->
-       PM.find t (tensors a) = PM.find t (tensors c) /\
-       forall ts, PM.find t (tensors a) = Some ts ->
-         inptr (heap a) (t_vals ts) /\
-         forall p q, In (p, q) (t_idx ts) -> inptr (heap a) p /\ inptr (heap a) q) /\
+    (forall t, t <> tout -> forall ts, PM.find t (tensors a) = Some ts ->
+       PM.find t (tensors c) = Some ts /\
+       inptr (heap a) (t_vals ts) /\
+       forall p q, In (p, q) (t_idx ts) -> inptr (heap a) p /\ inptr (heap a) q) /\
     (exists tsa tsc,
        PM.find tout (tensors a) = Some tsa /\ PM.find tout (tensors c) = Some tsc /\
        t_dims tsa = t_dims tsc /\ List.length (t_idx tsa) = List.length (t_idx tsc) /\
